@@ -232,6 +232,9 @@ pub struct DevCase {
     /// per file: (content kind 0 valid ELF with id, 1 valid ELF without id, 2 non-ELF, 3 truncated ELF; executable mapping; unlink after mapping)
     pub files: Vec<(u8, bool, bool)>,
     pub with_crash: bool,
+    /// the caller registers a user mapping whose name is one of the (watched) files under /dev
+    #[serde(default)]
+    pub user_mapping_under_dev: bool,
 }
 
 pub fn check_dev(c: &DevCase) -> Verdict {
@@ -254,13 +257,16 @@ pub fn check_dev(c: &DevCase) -> Verdict {
     let mut b = Builder::new();
     let mut paths = vec![];
     for (i, (kind, exec, unlink)) in c.files.iter().enumerate() {
+        // 0 id + SONAME, 1 no id, 2 not an ELF, 3 unreadable program headers, 4/5 id but NO SONAME (the name
+        // would have to come from the file: it must not be opened either)
+        let k = kind % 6;
         let spec = ElfSpec {
-            class64: true, little: true, text_len: 300, text_seed: i as u64, build_id: if kind % 4 == 0 { Some(vec![i as u8 + 1; 20]) } else { None },
-            note_phdr: true, note_section: true, note_align: 4, other_notes: 0, soname: Some(format!("libdev{i}.so")), dyn_phdr: true, dyn_section: true, dyn_order: 0,
-            sections: kind % 4 == 0, extra_phdrs: 0, pages: 2, seg2_delta_pages: 0, empty_note_first: false, shstr_rotation: 0, decoy_before: 0, decoy_after: false, dyn_link: 0,
+            class64: true, little: true, text_len: 300, text_seed: i as u64, build_id: if k == 0 || k >= 4 { Some(vec![i as u8 + 1; 20]) } else { None },
+            note_phdr: true, note_section: true, note_align: 4, other_notes: 0, soname: if k >= 4 { None } else { Some(format!("libdev{i}.so")) }, dyn_phdr: true, dyn_section: true, dyn_order: 0,
+            sections: k == 0 || k == 4, extra_phdrs: 0, pages: 2, seg2_delta_pages: 0, empty_note_first: false, shstr_rotation: 0, decoy_before: 0, decoy_after: false, dyn_link: 0,
         };
         let mut bytes = build(&spec).bytes;
-        match kind % 4 {
+        match k {
             2 => bytes = (0..8192u32).map(|o| (o * 13 + 5) as u8).collect(),
             3 => {
                 // ELF header intact, program header table offset beyond the file
@@ -303,6 +309,11 @@ pub fn check_dev(c: &DevCase) -> Verdict {
         let mut s = 5u64;
         let gregs: Vec<i64> = (0..23).map(|_| splitmix(&mut s) as i64).collect();
         opts.crash = Some(CrashContext2 { gregs, fp: fpstate_of_fx(&sentinel_fx(1)), signo: 6, code: 0, addr: 0, tid: t.pid });
+    }
+    if c.user_mapping_under_dev {
+        if let Some(p) = paths.first() {
+            opts.user_mappings.push(UserMap { start: 0x7000_0000_0000, size: 0x3000, name: Some(String::from_utf8_lossy(p).into_owned()), identifier: vec![9; 16], offset: 0, perms: 5 });
+        }
     }
     let mut w = make_writer(t.pid, &opts);
     let mut dest = Dest::new(vec![], 0);
@@ -469,8 +480,8 @@ pub fn run(ctx: &mut LaneCtx) {
         SubSpec {
             name: "dev-rule",
             cases: (160, 6_000),
-            rule: "targets mapping 1..4 files that live under /dev/shm (>= 4096 bytes, offset 0, executable or not; content valid ELF with id / valid ELF without id / non-ELF / ELF with unreadable program headers; optionally unlinked) with an inotify watch (IN_OPEN|IN_ACCESS) installed on each after the target finished mapping; oracle = no inotify event during the dump; non-trivial = at least one watched file; distinct = hash of case",
-            strategy: (proptest::collection::vec((0u8..4, any::<bool>(), proptest::bool::weighted(0.2)), 1..5), any::<bool>()).prop_map(|(files, with_crash)| DevCase { files, with_crash }).boxed(),
+            rule: "targets mapping 1..4 files that live under /dev/shm (>= 4096 bytes, offset 0, executable or not; content valid ELF with id and SONAME / with id but without SONAME / without id / non-ELF / ELF with unreadable program headers; optionally unlinked) with an inotify watch (IN_OPEN|IN_ACCESS) installed on each after the target finished mapping; oracle = no inotify event during the dump; non-trivial = at least one watched file; distinct = hash of case",
+            strategy: (proptest::collection::vec((0u8..6, any::<bool>(), proptest::bool::weighted(0.2)), 1..5), any::<bool>(), proptest::bool::weighted(0.4)).prop_map(|(files, with_crash, user_mapping_under_dev)| DevCase { files, with_crash, user_mapping_under_dev }).boxed(),
             max_shrink_iters: 100,
             log_current: true,
         },
